@@ -817,6 +817,35 @@ impl Check for C13 {
         prop_stage(ctx, "slice", t.pick(6_000, 150_000), slice_strategy());
         prop_stage(ctx, "text", t.pick(6_000, 150_000), text_string().prop_map(|s| Case::Text { s }));
         prop_stage(ctx, "to_number", t.pick(6_000, 150_000), num_strategy());
+        if t == Tier::Thorough {
+            let inputs = crate::driver::fuzz_inputs("strings", 40_000);
+            if ctx.shard == 0 {
+                ctx.note(format!("fuzz-triage: {} inputs from the libFuzzer campaign on the `strings` target", inputs.len()));
+            }
+            for (i, (_, data)) in inputs.iter().enumerate() {
+                if (i as u32) % ctx.of != ctx.shard || data.len() > 600 {
+                    continue;
+                }
+                // same decoding as fuzzing::strings_case
+                let take = |pos: &mut usize, max: usize| -> String {
+                    let n = usize::from(data.get(*pos).copied().unwrap_or(0)) % (max + 1);
+                    *pos += 1;
+                    let end = (*pos + n).min(data.len());
+                    let s = String::from_utf8_lossy(&data[(*pos).min(data.len())..end]).into_owned();
+                    *pos = end;
+                    s
+                };
+                let mut pos = 0;
+                let needle = take(&mut pos, 48);
+                let repl = take(&mut pos, 6);
+                let hay = String::from_utf8_lossy(&data[pos.min(data.len())..]).into_owned();
+                let case = Case::Search { hay, needle, repl };
+                classify(ctx, &case);
+                ctx.class("libFuzzer input triaged");
+                let o = check_case(&case);
+                ctx.handle("fuzz-triage", o);
+            }
+        }
     }
 
     fn replay(&self, _ctx: &mut ShardCtx, _stage: &str, input: &J) -> Outcome {
